@@ -1173,6 +1173,10 @@ func historyPart(thorough bool) {
 		{"UintN(2^24+1) on 00 00 00 01", []byte{0, 0, 0, 1}, func(p random.Rand) { p.UintN(1<<24 + 1) }},
 		{"Permutation(300) on 01 01 ..", bytes.Repeat([]byte{1}, 400), func(p random.Rand) { p.Permutation(300) }},
 		{"Samples(70000,2) on ff ff 00 fe ff 00", []byte{0xff, 0xff, 0x00, 0xfe, 0xff, 0x00}, func(p random.Rand) { p.Samples(70000, 2, func(i, j int) {}) }},
+		// an earlier call of the SAME helper with a larger / a smaller population (scratch space kept between calls)
+		{"SubPermutation(300,7) on 05 07 ..", bytes.Repeat([]byte{5, 7}, 40), func(p random.Rand) { p.SubPermutation(300, 7) }},
+		{"SubPermutation(4,3) on 03 02 01", []byte{3, 2, 1, 0, 0, 0}, func(p random.Rand) { p.SubPermutation(4, 3) }},
+		{"Shuffle(40) on 09 ..", bytes.Repeat([]byte{9}, 80), func(p random.Rand) { p.Shuffle(40, func(i, j int) {}) }},
 	}
 	ns := []int{1, 2, 3, 5, 8, 9, 16, 17, 100, 255, 256, 257, 258, 300}
 	if thorough {
